@@ -23,6 +23,13 @@ import (
 // (fixed point over the module); exported functions, goroutine roots and
 // functions whose value is taken start with the empty set.
 
+// SyncHigherOrder lists functions known to invoke their function argument
+// synchronously, before returning (reviewed): the literal inherits the
+// creator's lockset.
+var SyncHigherOrder = map[string]bool{
+	"sigs.k8s.io/controller-runtime/pkg/controller/controllerutil.CreateOrUpdate": true,
+}
+
 // HeldLock is a lock with its mode.
 type HeldLock struct {
 	Lock  *types.Var
@@ -444,6 +451,9 @@ func (la *LockAnalysis) litEntry(f *Fn, lit *ast.FuncLit) Lockset {
 		if fn, ok := f.Callee(call).(*types.Func); ok && fn.Pkg() != nil {
 			switch fn.Pkg().Path() {
 			case "sort", "slices":
+				return la.heldOrEmpty(f, call)
+			}
+			if SyncHigherOrder[fn.FullName()] {
 				return la.heldOrEmpty(f, call)
 			}
 		}
